@@ -858,6 +858,10 @@ impl<'de> Events<'de> for LiveEvents<'de> {
 
         Ok((&self.look).into())
     }
+    fn taken(&self) -> u64 {
+        self.delivered
+    }
+
     fn last_location(&self) -> Location {
         self.last_location
     }
